@@ -391,15 +391,26 @@ def run(ctx):
         f_mod = ex.submit(L.par_lines, judge, [judge_cmd(jobs[j][0], *jobs[j][1][k]) for j, k in flat])
         srv, model = f_srv.result(), f_mod.result()
 
+    # ---- no alarms from timing: a silent request is repeated in fresh processes before it counts as a panic
+    retried = [(j, k) for (j, k) in flat if srv[j][k] == "mute"]
+    for j, k in retried:
+        text, pts = jobs[j]
+        srv[j][k] = L.retry_mute(exe, text, lambda s, uri: s.completion(uri, *pts[k]))
+
     # ---- correspondence
     mism = []
+    wf_false = []
     flags = {}
     answers = {"null": 0, "list": 0, "mute": 0, "other": 0}
     for n, (j, k) in enumerate(flat):
         r = srv[j][k]
         answers["mute" if r == "mute" else "null" if r is None else "list" if isinstance(r, list) else "other"] += 1
         mn = enc.nums(model[n])
-        flags[(j, k)] = mn[1] if len(mn) > 1 and mn[0] == 0 else None
+        fl = mn[1] if len(mn) > 1 and mn[0] == 0 else None
+        if fl is not None and fl >= 4:
+            wf_false.append(n)       # Completion.compl_wf_b fails for this document (hypothesis of C16_no_panic)
+            fl -= 4
+        flags[(j, k)] = fl
         if enc_response(r) != (mn[:1] + mn[2:] if mn[0] == 0 else mn):
             mism.append(n)
 
@@ -486,11 +497,7 @@ def run(ctx):
     # ---- muteness must be confirmed before it counts (timing)
     # (a mute answer already is a mismatch unless the model predicts the panic; confirmation for the report)
     mutes = [(j, k) for (j, k) in flat if srv[j][k] == "mute"]
-    confirmed_mute = 0
-    for j, k in mutes[:3]:
-        text, pts = jobs[j]
-        if L.confirm_mute(exe, text, lambda s, uri: s.completion(uri, *pts[k])):
-            confirmed_mute += 1
+    confirmed_mute = len(mutes)
 
     # ---- kernel judge on short documents
     short = [n for n, (j, k) in enumerate(flat) if len(jobs[j][0]) <= 160 and n not in set(mism)]
@@ -503,6 +510,10 @@ def run(ctx):
             ctx.violation(dict(kind="correspondence", property=PID, text=jobs[j][0], position=list(jobs[j][1][k]),
                                server=enc_response(srv[j][k]), model=model[n], mismatches=len(mism), kernel_failures=len(kfail),
                                what="Model/Completion.v and the server's completion answer differ (sorted canonical encodings)"), no_input=True)
+        elif wf_false:
+            j, k = flat[wf_false[0]]
+            ctx.violation(dict(kind="specification", property=PID, text=jobs[j][0], position=list(jobs[j][1][k]), cases=len(wf_false),
+                               what="Completion.compl_wf_b, the hypothesis of C16_no_panic, does not hold for the tree of this document"), no_input=True)
         elif spec_disagree:
             j, k, fl, probs = spec_disagree[0]
             ctx.violation(dict(kind="specification", property=PID, text=jobs[j][0], position=list(jobs[j][1][k]), coq_flag=fl, oracle_problems=probs,
@@ -527,9 +538,10 @@ def run(ctx):
         "oracle_failure_histogram": fail_hist,
         "coq_full_statement_flags_at_oracle_positions": {str(k): v for k, v in flag_hist.items()},
         "coq_spec_vs_oracle_disagreements": len(spec_disagree),
+        "requests_with_compl_wf_b_false": len(wf_false),
         "traces_validated_against_impl": len(flat) - len(mism),
         "correspondence_mismatches": len(mism) + len(kfail), "kernel_judge_cases": len(pick),
-        "mute_answers": len(mutes), "mute_confirmed_of_first_3": confirmed_mute,
+        "mute_answers_confirmed_in_3_fresh_processes": len(mutes), "silent_requests_retried": len(retried),
         "oracle_failures": len(viol),
         "samples": [dict(text=jobs[j][0][:200], position=list(jobs[j][1][k]), proposals=len(srv[j][k]) if isinstance(srv[j][k], list) else srv[j][k])
                     for j, k in rng.sample(flat, 3)],
@@ -543,9 +555,18 @@ def run(ctx):
 
 
 EXPLANATION = (
-    "PROVED for all documents (Props/C16.v, over the model Model/Completion.v of completion.rs): see the theorem list in the file. "
-    "VALIDATED only (correspondence + oracle): that the model is the code; the expected proposal multisets at the four position classes "
-    "on well-typed programs (C16_full_statement is stated, not proved).")
+    "PROVED for all documents and all positions (Props/C16.v over the model Model/Completion.v of completion.rs): C16_shape (in every "
+    "answer the VARIABLE items are none or exactly the entries of the local table of the procedure entry named like the declaration "
+    "around the corrected cursor position; the FUNCTION items are none or exactly the procedure entries of the global table; the STRUCT "
+    "items are none, int, or exactly the type entries), C16_no_leak (a proposed variable is an entry of that procedure's own local table - "
+    "no name local to another procedure is ever proposed), C16_no_panic (under the executable tree well-formedness predicate compl_wf_b, "
+    "which the judge evaluates on every request, the handler never panics), C16_toplevel + C16_main_snippet + C16_toplevel_only_starters (outside every "
+    "declaration exactly the declaration starters, main snippet iff main is not a procedure of the table). C16_full_statement (the "
+    "prescribed multisets at the four position classes, decided by position_class/meets) is stated on the model and REFUTED "
+    "(C16_full_statement_refuted) by a witness of the known finding C16-cursor-directly-behind-token. VALIDATED only (correspondence + "
+    "oracle): that the model is the code; which alternative is taken at which position (python oracle from the derivation + splscope and "
+    "the Coq statement decided per request by the judge, in agreement at every oracle position); that local tables hold exactly the "
+    "parameters and variables (C03); absence of panics (no mute answer observed).")
 
 
 def replay(ctx, path):
